@@ -69,6 +69,20 @@ fn run(sh: &mut Shard) {
             }
         }
     }
+    for prog in slices::evaluation_order_programs() {
+        if !sh.mine() {
+            continue;
+        }
+        sh.begin(&|| printer::program(&prog));
+        sh.count("slice:evaluation-order");
+        if let Some(r) = differential(sh, "semantics", &prog, opts()) {
+            if !matches!(r.model.end, End::Unspec(_) | End::Diverge) {
+                sh.nontrivial(&printer::program(&prog));
+            } else {
+                sh.count("evaluation-order-unspecified");
+            }
+        }
+    }
     for prog in slices::block_function_programs() {
         if !sh.mine() {
             continue;
